@@ -186,7 +186,8 @@ class SettleMonitor(Monitor):
         pre = self.pre
         n = self.n
         live = pre['live']
-        exact = self.cfg['divmod'] == 'exact'
+        exact = self.cfg['divmod'] == 'exact' or (self.cfg['divmod'] == 'default' and self.cfg['chip'] == 'fraction'
+                                                  and not self.cfg.get('mixed'))      # the library's divmod is exact on Fractions
         layers = rs.layers_of(self.contrib, self.antes, live, st.ante_trimming_status)
         self.result['layers'] = [(str(a), e) for a, e in layers]
         if sum(live) == 0:
@@ -330,8 +331,8 @@ def run(ch, ctx):
     cfg = gen_config(ch, bias)
     if cfg['chip'] == 'int':
         cfg['divmod'] = 'default'
-    elif cfg['divmod'] != 'exact':
-        cfg['divmod'] = 'exact'
+    elif cfg['divmod'] != 'exact' and not ch.chance('c02.library_divmod', 1, 2):
+        cfg['divmod'] = 'exact'         # (otherwise: Fraction chips through the library's own divmod, which is exact on them)
     mon = SettleMonitor(cfg)
     world = None
     try:
@@ -339,9 +340,9 @@ def run(ch, ctx):
         mucks = ch.chance('c02.mucks', 1, 4)
         partial = ch.chance('c02.partial', 1, 4)
         monitors = [mon]
-        if not mucks and not partial:
-            # nobody gives up voluntarily in this run, so every muck and kill is the engine's: the strongest hand among
-            # the players who did not fold must then still be paid (settlement with every such player's full hand)
+        if not mucks:
+            # nobody mucks voluntarily in this run, so every muck and kill is the engine's: the strongest hand among the
+            # players who did not fold - judged by the cards each of them tabled - must then still be paid
             from .c12 import TableAll
             monitors.append(TableAll(cfg, prefix='C02.table_all'))
         world = RigWorld(ch, ctx, cfg, monitors, run_key=run_key_of(ch), dealer=dealer,
